@@ -1,7 +1,15 @@
 """C17 — fallback: complete grid + random schedules, implementation-side monitor
 
-Header   `fallback strategy=<s> [handle=<mask>] val=<n>`
-Requests `arrive <c> tag=<t> inner=<lat>:<out>[,<lat>:<out>]` (second step = the backup call)
+Header   `fallback strategy=<s> [handle=<mask>] val=<n> [via=<builder|short|default>] [upper=<s> [uhandle=<mask>] [uval=<n>] [uvia=…]]`
+         `via=`: how the layer is built — the builder, the shortcut constructor of the strategy (only without a predicate),
+         `FallbackConfigBuilder::default()`; `upper=`: a second fallback layer stacked on top (error type `FallbackError<IErr>`;
+         its test functions see `Inner(e)` as kind 2*e.kind and `FallbackFailed(e)` as kind 2*e.kind+1 and log `upredicate`/`ustrategy`)
+Requests `arrive <c> tag=<t> inner=<lat>:<out>[,<lat>:<out>] [post=<steps>] [svc=<k>] [reuse=1]` (second step = the backup call);
+         `post=`: what the caller does with an error result before looking at it — `c` clone it, `v` view it through the
+         accessors (`view c <is_inner> <is_failed> <ref kind> <ref v> <into kind> <into v>`), `m` convert the payload with
+         `FallbackError::map` (kind + 100); `svc=<k>`: which of several services built from the one layer value (odd k: from a
+         clone of it); `reuse=1`: call the long-lived handle itself instead of a clone
+Probe    `probe strategy c= tag= kind= v=`: a hand-built `FallbackStrategy` value of the header's strategy, cloned, the clone applied
 Handles  `manual dropsvc`: the caller drops the service, its clones and the layer (calls in flight
          keep running; later arrivals are answered `noop`)
 Readiness `ready=<script>` / `bready=<script>` in the header: the wrapped / the backup service answers
@@ -47,19 +55,67 @@ READY_HANDLES = [None, (1 << READY_KIND) | 2, 6]
 READY_GRID = [(s, h, li, lb) for s in STRATEGIES for h in READY_HANDLES for (li, lb) in [(0, 0), (5, 3)]]
 
 GRID = _grid()
-GRID_SIZE = len(GRID) + len(READY_GRID)
 _counter = [0]
 
 
 _order = [0]
 
 
-def header(s, h, val, ready=None, bready=None):
+_via = [0]
+VIAS = ["builder", "short", "default"]
+
+
+def header(s, h, val, ready=None, bready=None, upper=None):
     # alternate the order of the two builder calls (strategy / handle predicate): they must commute
     _order[0] ^= 1
-    return "fallback strategy=%s%s val=%d order=%d%s%s" % (
+    # rotate the way the layer is built: builder / shortcut constructor (has no predicate) / `Default` builder
+    _via[0] += 1
+    via = VIAS[_via[0] % 3]
+    if via == "short" and h is not None:
+        via = "default" if _via[0] % 2 else "builder"
+    up = ""
+    if upper is not None:
+        us, uh, uval = upper
+        uvia = VIAS[(_via[0] // 3) % 3]
+        if uvia == "short" and uh is not None:
+            uvia = "builder"
+        up = " upper=%s%s uval=%d%s" % (us, "" if uh is None else " uhandle=%d" % uh, uval, "" if uvia == "builder" else " uvia=" + uvia)
+    return "fallback strategy=%s%s val=%d order=%d%s%s%s%s" % (
         s, "" if h is None else " handle=%d" % h, val, _order[0],
-        "" if ready is None else " ready=%s" % ready, "" if bready is None else " bready=%s" % bready)
+        "" if ready is None else " ready=%s" % ready, "" if bready is None else " bready=%s" % bready,
+        "" if via == "builder" else " via=" + via, up)
+
+
+# what a caller does with an error result before looking at it (`post=`): clone / view / map steps
+POSTS = ["", "", "", "m", "v", "c", "mv", "vm", "cm", "vcmv", "mm", "cvc", "vmvmv"]
+# the upper layer of a stack: every strategy but the backup service; predicate over (variant, kind):
+# none / FallbackFailed only (odd bits) / Inner only (even bits) / Inner kind 1, FallbackFailed kinds 1 and 3
+UPPERS = ["value", "value_fn", "from_error", "from_request_error", "exception"]
+FAILED_ONLY = 0xAAAAAAAAAAAAAAAA
+INNER_ONLY = 0x5555555555555555
+UHANDLES = [None, FAILED_ONLY, INNER_ONLY, (1 << 2) | (1 << 3) | (1 << 7)]
+STACK_GRID = [(us, uh, s) for us in UPPERS for uh in UHANDLES for s in ("service", "exception", "from_request_error")]
+GRID_SIZE = len(GRID) + len(READY_GRID) + len(STACK_GRID)
+
+
+def _caller_opts(rng, multi):
+    """`post=` on every second request; with `multi`, some requests go to other services of the same layer and
+    some are made on the long-lived handle itself"""
+    o = ""
+    p = rng.choice(POSTS)
+    if p:
+        o += " post=" + p
+    if multi:
+        r = rng.random()
+        if r < 0.35:
+            o += " svc=%d" % rng.choice([1, 1, 2, 3])
+        if rng.random() < 0.3:
+            o += " reuse=1"
+    return o
+
+
+def _probe(rng):
+    return "probe strategy c=%d tag=%d kind=%d v=%d" % (rng.randint(0, 9), rng.randint(0, 99), rng.choice([1, 2, 3, 9]), rng.randint(0, 50))
 
 
 def _script(rng, n, weights="rrrppee"):
@@ -94,10 +150,12 @@ def ready_case(rng, point):
         bready += "e"
     ops = []
     ids = list(range(1, len(answers) + 3))
+    multi = rng.random() < 0.5
+    upper = (rng.choice(UPPERS), rng.choice(UHANDLES + [(1 << 18) | 2]), rng.choice([0, 55])) if rng.random() < 0.3 else None
     for c in ids:
         io = rng.choice(["ok", "err1", "err%d" % READY_KIND, "err%d" % READY_KIND, "err2", "panic", "never"])
         bo = rng.choice(["ok", "ok", "err3", "panic", "never"])
-        ops.append("arrive %d tag=%d inner=%d:%s,%d:%s" % (c, 10 + rng.randint(0, 80), li, io, lb, bo))
+        ops.append("arrive %d tag=%d inner=%d:%s,%d:%s%s" % (c, 10 + rng.randint(0, 80), li, io, lb, bo, _caller_opts(rng, multi)))
         r = rng.random()
         if r < 0.3:
             ops.append("poll %d" % c)
@@ -110,7 +168,7 @@ def ready_case(rng, point):
     if rng.random() < 0.3:
         _dropsvc(rng, ops, len(ids) + 1)
     ops.append("dropall")
-    return {"header": header(s, h, val, ready, bready), "ops": ops}
+    return {"header": header(s, h, val, ready, bready, upper), "ops": ops}
 
 
 def _dropsvc(rng, ops, c):
@@ -122,17 +180,22 @@ def _dropsvc(rng, ops, c):
             ops.append("%s %d" % (rng.choice(["poll", "drop"]), c))
 
 
-def grid_case(rng, point):
+def grid_case(rng, point, upper=None):
     s, h, li, lb, dp = point
     val = rng.choice([700, 7000, 0])
     ops = []
     ids = []
     c = 0
+    # in one case out of four the requests are spread over several services built from the one layer value,
+    # and some are made on the long-lived handles themselves
+    multi = rng.random() < 0.25
     for io in INNER_OUT:
         for bo in BACKUP_OUT:
             c += 1
             ids.append(c)
-            ops.append("arrive %d tag=%d inner=%d:%s,%d:%s" % (c, 10 + rng.randint(0, 80), li, io, lb, bo))
+            ops.append("arrive %d tag=%d inner=%d:%s,%d:%s%s" % (c, 10 + rng.randint(0, 80), li, io, lb, bo, _caller_opts(rng, multi)))
+    if rng.random() < 0.2:
+        ops.insert(rng.randrange(len(ops) + 1), _probe(rng))
     order = ids[:]
     if rng.random() < 0.5:
         rng.shuffle(order)
@@ -158,7 +221,14 @@ def grid_case(rng, point):
     if dp == 3 or (dp == 2 and first):
         _dropsvc(rng, ops, len(ids) + 1)
     ops.append("dropall")
-    return {"header": header(s, h, val), "ops": ops}
+    return {"header": header(s, h, val, None, None, upper), "ops": ops}
+
+
+def stack_case(rng, point):
+    """the grid of inner x backup outcomes under a stack: upper strategy x upper predicate x lower strategy"""
+    us, uh, s = point
+    li, lb = rng.choice(LATS)
+    return grid_case(rng, (s, rng.choice(HANDLES), li, lb, rng.choice([None, None, None, 1, 2])), (us, uh, rng.choice([0, 55, 900])))
 
 
 def pick_out(rng):
@@ -180,6 +250,10 @@ def random_case(rng):
     # readiness scripts (two cases in five): of the wrapped service, and of the backup service
     ready = _script(rng, rng.randint(1, ncall + 2)) if rng.random() < 0.4 else None
     bready = _script(rng, rng.randint(1, ncall + 2), "rrrppe") if s == "service" and rng.random() < 0.4 else None
+    upper = None
+    if rng.random() < 0.3:
+        upper = (rng.choice(UPPERS), rng.choice(UHANDLES + [rng.randint(0, 1 << 24), (1 << 64) - 1]), rng.choice([0, 1, 55, rng.randint(0, 1000)]))
+    multi = rng.random() < 0.4
     pending = list(range(1, ncall + 1))
     arrived = []
     ops = []
@@ -208,7 +282,7 @@ def random_case(rng):
             if rng.random() < 0.85:
                 plan += ",%d:%s" % (lb, pick_out(rng))
             tag = rng.choice([c, rng.randint(0, 99), rng.randint(0, 99)])
-            ops.append("arrive %d tag=%d inner=%s" % (c, tag, plan))
+            ops.append("arrive %d tag=%d inner=%s%s" % (c, tag, plan, _caller_opts(rng, multi)))
             arrived.append(c)
             marks += [now + li, now + li + lb]
             if rng.random() < 0.6:
@@ -228,6 +302,8 @@ def random_case(rng):
             if arrived:
                 c = rng.choice(arrived)
                 marks.append(now + 3)
+        elif r < 0.92:
+            ops.append(_probe(rng))
         else:
             ops.append("settle")
     if gone_at == nsteps:
@@ -237,7 +313,7 @@ def random_case(rng):
         ops.append("settle")
     if rng.random() < 0.5:
         ops.append("dropall")
-    return {"header": header(s, h, val, ready, bready), "ops": ops}
+    return {"header": header(s, h, val, ready, bready, upper), "ops": ops}
 
 
 def gen(rng, tier):
@@ -245,8 +321,10 @@ def gen(rng, tier):
     _counter[0] += 1
     if i < len(GRID):
         return grid_case(rng, GRID[i])
-    if i < GRID_SIZE:
+    if i < len(GRID) + len(READY_GRID):
         return ready_case(rng, READY_GRID[i - len(GRID)])
+    if i < GRID_SIZE:
+        return stack_case(rng, STACK_GRID[i - len(GRID) - len(READY_GRID)])
     return random_case(rng)
 
 
@@ -266,7 +344,18 @@ def _requests(case):
     return tags
 
 
-_NAMED = ("inner_call", "inner_done", "inner_drop", "binner_call", "binner_done", "binner_drop", "resp", "result")
+def _posts(case):
+    """caller -> its `post=` steps (first arrival counts)"""
+    posts = {}
+    for o in case["ops"]:
+        w = o.split()
+        if len(w) >= 2 and w[0] == "arrive" and w[1].isdigit() and int(w[1]) not in posts:
+            posts[int(w[1])] = kvs(o).get("post", "")
+    return posts
+
+
+_NAMED = ("inner_call", "inner_done", "inner_drop", "binner_call", "binner_done", "binner_drop", "view", "resp", "result")
+_USER = ("predicate", "strategy", "upredicate", "ustrategy")
 
 
 def _per_caller(lines):
@@ -282,7 +371,9 @@ def _per_caller(lines):
         if not w or w[0] == "noop":
             owner = None
             continue
-        if w[0] in ("predicate", "strategy"):
+        if w[0] == "probe":
+            continue
+        if w[0] in _USER:
             who = owner
             if who is None:
                 nxt = [x for x in ws[i + 1:] if x and x[0] in _NAMED]
@@ -425,20 +516,134 @@ def _expected(cfg, c, tag, k, out, k2, out2, n, bans="r"):
     return seq + [["resp", str(c), "fallback_failed", str(kd2), str(k2)], ["result", str(c), "err:all_failed:inner%d:%d" % (kd2, k2)]]
 
 
+def _outcome_of(seq):
+    """the outcome a complete expected sequence ends in (from its `resp` line, which carries the full payload)"""
+    if len(seq) >= 2 and seq[-2][0] == "resp" and seq[-1][0] == "result":
+        w = seq[-2]
+        if w[2] == "ok":
+            return ("ok", int(w[3]), int(w[4]), int(w[5]))
+        return ("inner" if w[2] == "inner" else "failed", int(w[3]), int(w[4]))
+    return None
+
+
+def _emit(c, out):
+    if out[0] == "ok":
+        return [["resp", str(c), "ok", str(out[1]), str(out[2]), str(out[3])], ["result", str(c), "ok:%d" % out[1]]]
+    if out[0] == "inner":
+        return [["resp", str(c), "inner", str(out[1]), str(out[2])], ["result", str(c), "err:inner%d:%d" % (out[1], out[2])]]
+    return [["resp", str(c), "fallback_failed", str(out[1]), str(out[2])], ["result", str(c), "err:all_failed:inner%d:%d" % (out[1], out[2])]]
+
+
+def _upper_ref(cfg, c, tag, out, nu, readiness=False):
+    """The property once more, for the UPPER layer of a stack: its inner service is the lower layer, its inner error
+    the lower layer's `FallbackError` — seen by its test functions as kind 2k (Inner) / 2k+1 (FallbackFailed).
+    -> (lines of its user functions, its outcome); a success passes through and triggers nothing; a readiness failure
+    is forwarded by `poll_ready` (wrapped once more), never handled."""
+    if out[0] == "ok":
+        return [], out
+    kind = 2 * out[1] + (1 if out[0] == "failed" else 0)
+    v = out[2]
+    if readiness:
+        return [], ("inner", kind, v)
+    strat = cfg["upper"]
+    mask = int(cfg["uhandle"]) if "uhandle" in cfg else None
+    uval = int(cfg.get("uval", "0"))
+    lines = []
+    handled = True if mask is None else (kind < 64 and bool((mask >> kind) & 1))
+    if mask is not None:
+        lines.append(["upredicate", str(kind), str(v), "1" if handled else "0"])
+    if not handled:
+        return lines, ("inner", kind, v)
+    if strat == "value_fn":
+        return lines + [["ustrategy", "value_fn", str(nu)]], ("ok", uval + nu, 0, 1)
+    if strat == "from_error":
+        return lines + [["ustrategy", "from_error", str(kind), str(v)]], ("ok", v, 0, kind)
+    if strat == "from_request_error":
+        return lines + [["ustrategy", "from_request_error", str(c), str(tag), str(kind), str(v)]], ("ok", v, c, tag * 100 + kind)
+    if strat == "exception":
+        return lines + [["ustrategy", "exception", str(kind), str(v)]], ("inner", kind + 10, v)
+    return lines, ("ok", uval, 0, 0)
+
+
+def _post_ref(c, out, steps):
+    """what the caller's post-processing of an error result must show: a clone is the same error, `map` keeps the variant
+    and converts the payload (kind + 100), the accessors report the variant and the payload"""
+    if out[0] == "ok":
+        return [], out
+    var, k, v = out
+    lines = []
+    for st in steps:
+        if st == "m":
+            k += 100
+        elif st == "v":
+            lines.append(["view", str(c), "1" if var == "inner" else "0", "1" if var == "failed" else "0", str(k), str(v), str(k), str(v)])
+    return lines, (var, k, v)
+
+
+def _stacked(cfg):
+    return cfg.get("upper") not in (None, "service")
+
+
+def _finish(cfg, c, tag, post, seq, nu, readiness=False):
+    """a complete expected sequence of the (lower) layer -> what the caller must log: the upper layer's decision on that
+    outcome (if there is one), then the caller's post-processing"""
+    out = _outcome_of(seq)
+    if out is None:
+        return seq
+    mid = []
+    if _stacked(cfg):
+        mid, out = _upper_ref(cfg, c, tag, out, nu, readiness)
+    views, out = _post_ref(c, out, post)
+    return seq[:-2] + mid + views + _emit(c, out)
+
+
+def _probe_ref(cfg, o):
+    """`probe strategy c= tag= kind= v=`: the clone of a strategy value is that strategy"""
+    kv = kvs(o)
+    c, tag, kd, v = int(kv.get("c", 0)), int(kv.get("tag", 0)), int(kv.get("kind", 0)), int(kv.get("v", 0))
+    strat = cfg.get("strategy", "value")
+    val = int(cfg.get("val", "0"))
+    if strat == "value_fn":
+        return "probe strategy value_fn ok %d 0 1" % val
+    if strat == "from_error":
+        return "probe strategy from_error ok %d 0 %d" % (v, kd)
+    if strat == "from_request_error":
+        return "probe strategy from_request_error ok %d %d %d" % (v, c, tag * 100 + kd)
+    if strat == "service":
+        return "probe strategy service ok %d %d %d" % (tag, c, tag)
+    if strat == "exception":
+        return "probe strategy exception inner %d %d" % (kd + 10, v)
+    return "probe strategy value ok %d 0 0" % val
+
+
 def mon_c17(case, lines, meta):
     cfg = kvs(case["header"])
     tags = _requests(case)
+    posts = _posts(case)
+    want = [_probe_ref(cfg, o) for o in case["ops"] if o.split()[:2] == ["probe", "strategy"]]
+    got = [" ".join(tparse(l)[1]) for l in lines if tparse(l)[1][:1] == ["probe"]]
+    if want != got:
+        i = 0
+        while i < len(want) and i < len(got) and want[i] == got[i]:
+            i += 1
+        return "clone of a FallbackStrategy value (probe %d): expected %r, observed %r" % (
+            i, want[i] if i < len(want) else "<nothing more>", got[i] if i < len(got) else "<nothing more>")
     r, err = _per_caller(lines)
     if err:
         return err
     per, order = r
     # invocation index of the value function, in log order
     vfn_index = {}
+    uvfn_index = {}
     n = 0
+    nu = 0
     for (c, w) in order:
         if w[:2] == ["strategy", "value_fn"]:
             vfn_index[c] = n
             n += 1
+        if w[:2] == ["ustrategy", "value_fn"]:
+            uvfn_index[c] = nu
+            nu += 1
     serials = [int(w[2]) for (_, w) in order if w[0] in ("inner_call", "binner_call")]
     if serials != list(range(len(serials))):
         return "serials of inner/backup calls are not 0,1,2,… in call order: %s" % serials[:20]
@@ -447,13 +652,13 @@ def mon_c17(case, lines, meta):
     for c, a in rans.items():
         if a != "r" and c not in per:
             return "caller %d met a %s wrapped service on arrival: expected %r, nothing logged" % (
-                c, "pending" if a == "p" else "failing", " ".join(_expected_ready(c, a)[0]))
+                c, "pending" if a == "p" else "failing", " ".join(_finish(cfg, c, tags.get(c, c), posts.get(c, ""), _expected_ready(c, a), 0, True)[0]))
     for c, evs in per.items():
         if c not in tags:
             return "caller %d appears in the log but never arrived" % c
         tag = tags[c]
         if rans.get(c, "r") != "r":
-            exp = _expected_ready(c, rans[c])
+            exp = _finish(cfg, c, tag, posts.get(c, ""), _expected_ready(c, rans[c]), 0, True)
             if evs != exp:
                 i = 0
                 while i < len(evs) and i < len(exp) and evs[i] == exp[i]:
@@ -482,6 +687,7 @@ def mon_c17(case, lines, meta):
             if w[0] == "binner_done":
                 out2 = w[3]
         exp = _expected(cfg, c, tag, k, out, k2, out2, vfn_index.get(c, n), bans.get(c, (0, "r"))[1])
+        exp = _finish(cfg, c, tag, posts.get(c, ""), exp, uvfn_index.get(c, nu))
         got = rest
         if got and got[-1][0] == "binner_drop":
             if got[-1] != ["binner_drop", str(c), str(k2)] or out2 is not None:
@@ -572,10 +778,70 @@ def _ready_tags(case, lines, cfg, strat):
     return tags
 
 
+def _caller_tags(case, lines, cfg):
+    """the caller's side (post-processing, several services, handle reuse), the way the layer was built, stacks, probes"""
+    tags = []
+    if cfg.get("via") in ("short", "default"):
+        tags.append("via-" + cfg["via"])
+    if cfg.get("uvia") in ("short", "default"):
+        tags.append("upper-via-" + cfg["uvia"])
+    stacked = _stacked(cfg)
+    posts = _posts(case)
+    called = set()
+    opts = {}
+    for o in case["ops"]:
+        w = o.split()
+        if len(w) >= 2 and w[0] == "arrive" and w[1].isdigit() and int(w[1]) not in opts:
+            opts[int(w[1])] = kvs(o)
+    svcs = set()
+    for l in lines:
+        _, w = tparse(l)
+        if not w:
+            continue
+        if w[0] == "inner_call":
+            c = int(w[1])
+            called.add(c)
+            kv = opts.get(c, {})
+            svcs.add(kv.get("svc", "0"))
+            if kv.get("svc", "0") != "0":
+                tags.append("call-on-other-service")
+                if int(kv["svc"]) % 2 == 1:
+                    tags.append("call-on-service-of-cloned-layer")
+            if kv.get("reuse") == "1":
+                tags.append("call-on-reused-handle")
+        elif w[0] == "probe":
+            tags.append("probe-strategy-clone")
+        elif w[0] == "view":
+            tags.append("view-inner" if w[2] == "1" else "view-failed")
+        elif w[0] == "upredicate":
+            tags.append("upper-predicate-accepts" if w[3] == "1" else "upper-predicate-rejects")
+            tags.append("upper-sees-failed" if int(w[1]) % 2 == 1 else "upper-sees-inner")
+        elif w[0] == "ustrategy":
+            tags.append("upper-strategy-" + w[1])
+            if w[1] != "value_fn":
+                kd = int(w[-2])
+                tags.append("upper-sees-failed" if kd % 2 == 1 else "upper-sees-inner")
+                if w[1] == "exception" and kd % 2 == 1:
+                    tags.append("upper-exception-on-failed-backup")
+        elif w[0] == "resp" and w[2] in ("inner", "fallback_failed"):
+            c = int(w[1])
+            p = posts.get(c, "")
+            for st, name in (("m", "map"), ("c", "clone"), ("v", "view")):
+                if st in p:
+                    tags.append("post-%s-on-%s" % (name, "failed" if w[2] == "fallback_failed" else "inner"))
+            if stacked:
+                tags.append("stack-error-result" if c in called else "stack-readiness-error")
+        elif w[0] == "resp" and stacked:
+            tags.append("stack-ok-result")
+    if len(svcs) > 1:
+        tags.append("several-services-of-one-layer")
+    return tags
+
+
 def transitions(case, lines, meta=None):
     cfg = kvs(case["header"])
     strat = cfg.get("strategy", "value")
-    tags = _dropsvc_tags(case, lines, meta) + _ready_tags(case, lines, cfg, strat)
+    tags = _dropsvc_tags(case, lines, meta) + _ready_tags(case, lines, cfg, strat) + _caller_tags(case, lines, cfg)
     done_err = set()
     for l in lines:
         _, w = tparse(l)
@@ -627,13 +893,21 @@ ALL = (["inner-ok", "inner-err", "inner-panic", "handled-no-predicate", "predica
           "arrive-after-dropsvc"]
        + ["ready-error", "ready-pending", "ready-ok-scripted", "backup-ready-error", "backup-ready-pending",
           "backup-ready-ok-scripted"]
-       + ["ready-error-%s-%s" % (s, m) for s in STRATEGIES for m in ("nopred", "accepted", "rejected")])
+       + ["ready-error-%s-%s" % (s, m) for s in STRATEGIES for m in ("nopred", "accepted", "rejected")]
+       + ["post-%s-on-%s" % (p, v) for p in ("map", "clone", "view") for v in ("inner", "failed")]
+       + ["view-inner", "view-failed", "via-short", "via-default", "upper-via-short", "upper-via-default",
+          "several-services-of-one-layer", "call-on-other-service", "call-on-service-of-cloned-layer", "call-on-reused-handle",
+          "probe-strategy-clone", "stack-ok-result", "stack-error-result", "stack-readiness-error",
+          "upper-predicate-accepts", "upper-predicate-rejects", "upper-sees-failed", "upper-sees-inner",
+          "upper-exception-on-failed-backup"]
+       + ["upper-strategy-" + s for s in UPPERS if s != "value"])
 
 LEVEL_NOTE = ("Trusted: Lean kernel; the reading of lib.rs:274-512 as TR.Model.Fallback.afterInner/afterBackup and of the async block as the "
               "three-phase machine (validated by the sampled correspondence check, which enumerates the complete strategy x predicate x inner "
               "outcome x backup outcome grid in every run); the harness (manual poller, scripted inner and backup services, the fixed test "
               "functions given to the builder) and the python diff/monitor. The Rust types guarantee nothing the model relies on. Not covered: "
-              "poll_ready forwarding and the call-on-a-clone readiness question (C20), listeners/metrics/tracing.")
+              "the call-on-a-clone readiness question (C20), listeners/metrics/tracing, Display/Error::source of FallbackError; the upper layer of a "
+              "stack never uses the backup-service strategy.")
 
 SPECS = {
     "C17": {
@@ -645,15 +919,21 @@ SPECS = {
         "transitions": transitions,
         "nontrivial": nontrivial,
         "all_transitions": ALL,
-        "model_modules": ["TR.Model.Fallback", "TR.Lemmas.Fallback", "TR.Lemmas.FallbackDrop"],
-        "lean_files": ["TR.Model.Fallback", "TR.Lemmas.Fallback", "TR.Lemmas.FallbackDrop"],
+        "model_modules": ["TR.Model.Fallback", "TR.Lemmas.Fallback", "TR.Lemmas.FallbackDrop", "TR.Lemmas.FallbackStack"],
+        "lean_files": ["TR.Model.Fallback", "TR.Lemmas.Fallback", "TR.Lemmas.FallbackDrop", "TR.Lemmas.FallbackStack"],
         "sizes": (GRID_SIZE + 404, 20000),
         "rule": "the first %d cases of every run enumerate the grid 6 strategies x {no predicate, accepts kind 1, accepts kinds 1-2, rejects all} "
                 "x inner {ok, err1, err2, panic, never} x backup {ok, err3, err1, panic, never} x latency pattern {0,5}x{0,3} ms (25 tagged "
                 "requests per case) x service handles (service, clones, layer) {kept, dropped before the first poll, after the first polls, "
                 "after the first latency, after completion}, then the readiness grid 6 strategies x predicate {none, accepts the readiness error "
                 "(kind 9), rejects it} x latency pattern {0+0, 5+3} ms (8..12 requests meeting scripted ready/pending/error answers of the wrapped "
-                "service, call errors of kind 9 next to them, a scripted backup readiness for the backup strategy); the rest are seeded random schedules (arrive/poll/drop/adv/settle, 1..8 requests, "
+                "service, call errors of kind 9 next to them, a scripted backup readiness for the backup strategy), then the stack grid upper strategy "
+                "{value, value_fn, from_error, from_request_error, exception} x upper predicate {none, FallbackFailed only, Inner only, three (variant, kind) pairs} x "
+                "lower strategy {service, exception, from_request_error} (the 25 requests each, a second real FallbackLayer on top); in every case every "
+                "second request's error result goes through a caller-side post-processing (clone / accessors / FallbackError::map steps), the layer "
+                "is built in rotation through the builder, the strategy's shortcut constructor (no predicate) and the Default builder, in one case of "
+                "four the requests are spread over several services built from the one layer value (odd ones from a clone of it) and some calls are "
+                "made on the long-lived handles themselves, some cases probe a cloned FallbackStrategy value; the rest are seeded random schedules (arrive/poll/drop/adv/settle, 1..8 requests, "
                 "random tags, kinds, masks, latencies, drops in every phase, in every second one the service handles dropped at a random point "
                 "and requests attempted afterwards, in two of five a readiness script of the wrapped service / of the backup service); distinct = distinct implementation log; non-trivial = an error was replaced, returned "
                 "unchanged, or the backup failed / was cancelled" % GRID_SIZE,
@@ -662,7 +942,9 @@ SPECS = {
         "assumptions": ["the user-supplied functions are the fixed test functions of the harness (value 'val', value_fn = val+#calls, from_error, "
                         "from_request_error, exception = kind+10, predicate = bit mask over kinds); the theorems about afterInner hold for these, "
                         "the structural theorems (success untouched, predicate gate, backup error not dropped) do not depend on them",
-                        "one poll of one call future is atomic (single-threaded runtime)"],
+                        "one poll of one call future is atomic (single-threaded runtime)",
+                        "the upper layer of a stack uses the same test functions over the injective encoding Inner(e) -> kind 2k, FallbackFailed(e) -> "
+                        "kind 2k+1 of the lower layer's error; the caller's payload conversion is kind+100"],
         "level_text": "Theorems TR.Props.C17.*: the layer's decision logic as a pure function of (strategy, predicate, request, inner result, backup "
                       "result) passes every success through untouched with no predicate/strategy/backup call, triggers the strategy iff the "
                       "predicate accepts (always without one), returns unhandled errors unchanged, and yields exactly the strategy's value for that "
@@ -673,7 +955,13 @@ SPECS = {
                       "independent of when or whether the handles are dropped (dropsvc_only_stops_new_calls, log_independent_of_dropsvc_time); "
                       "and a readiness error of the wrapped service is returned unchanged under the pass-through variant with no predicate, "
                       "strategy, inner or backup call, whatever the configuration (poll_ready_forwards, readiness_error_passed_through, "
-                      "callbacks_only_after_call_error, readiness_failure_unchanged). "
+                      "callbacks_only_after_call_error, readiness_failure_unchanged); and what the caller sees through FallbackError's own API "
+                      "is what the layer produced: the accessors tell the variants apart and give the payload, map and clone keep the variant "
+                      "(accessors_exact, map_keeps_variant, clone_faithful, post_exact, post_views_exact, failed_backup_survives_post); and a "
+                      "second fallback layer on top is a second instance of the same decision function applied to the lower layer's result, "
+                      "variant included (upper_sees_variant, stack_is_composition, upper_handles_iff, upper_exception_exact, "
+                      "exception_over_failed_backup), in every run (stack_result_exact, upper_callbacks_only_for_lower_errors, "
+                      "stack_success_untouched). "
                       "Model tied to the real FallbackLayer by line-for-line agreement on the "
                       "complete grid plus random schedules.",
         "level_note": LEVEL_NOTE,
